@@ -81,8 +81,11 @@ fn emit_sequence(
 
     let mut named = Map::new();
     for (index, branch) in sequence.branches.iter().enumerate() {
-        let branch_scope =
+        let mut branch_scope =
             scope.at_path(joined_path(&sequence_path, format!("s{index}")));
+        // The branch starts with `pop`: content that addresses itself by index
+        // (conditionals, sequences, choices) comes one token later.
+        branch_scope.param_offset = 1;
         let mut branch_container = emit_nodes(branch, &branch_scope, context)?;
         branch_container.content.insert(0, json!("pop"));
         branch_container.push(json!({"->": joined_path(&sequence_path, rejoin_index)}));
